@@ -42,7 +42,7 @@ def run(ctx):
         "Spec.Size/Mask for all 65536 spec values; identity acceptor on all 14 878 pairs of physical registers; allocation runs of 65536 and "
         "65537 registers per kind. GENERATED (-n): conversion chains of length 2-5 on physical and virtual registers, mixed allocation "
         "histories, malformed/random ids, kinds, indexes and specs for the lookups. Exact comparison with the Lean model for everything "
-        "the API pins down; acceptors (accept-reg/-ident/-as/-lookup/-vas/-fresh/-class/-vclass) evaluate the proved clauses of the "
+        "the API pins down; acceptors (accept-reg/-ident/-as/-lookup/-lookup-virtual/-vas/-fresh/-class/-vclass) evaluate the proved clauses of the "
         "property (RegOK, IdentOK, AsOK, VAsOK, FreshOK, ClassOK) on the implementation's outputs against the measured table. "
         "non-trivial = not a spec value >= 128, a raw id decomposition or a lookup answering nil")
     ctx.assumptions += [
